@@ -164,6 +164,27 @@ def coq_build(target, timeout=3000):
     return rc == 0, out
 
 
+def coqchk(target, timeout=3000):
+    """Independent re-check (coqchk) of a compiled Props file and everything it depends on, on a copy of the compiled tree
+    (coqchk may touch the .vo files it loads). Returns (ok, axioms_text, seconds)."""
+    import shutil, time as _t
+    mod = "LE." + target[:-2].replace("/", ".")
+    work = os.path.join(BUILD, "coqchk.%d" % os.getpid())
+    shutil.rmtree(work, ignore_errors=True)
+    shutil.copytree(COQ, work, ignore=shutil.ignore_patterns("*.glob", "*.aux", "*.vos", "*.vok", "*.ml", "*.mli", "*.cm*", "*.o"))
+    t0 = _t.time()
+    rc, out = run(["coqchk", "-silent", "-o", "-Q", ".", "LE", mod], cwd=work, timeout=timeout)
+    dt = _t.time() - t0
+    shutil.rmtree(work, ignore_errors=True)
+    m = re.search(r"\* Axioms:(.*?)\n\s*\n\* Constants/Inductives relying on type-in-type:(.*?)\n\s*\n\* Constants/Inductives relying on unsafe \(co\)fixpoints:(.*?)\n\s*\n"
+                  r"\* Inductives whose positivity is assumed:(.*?)\n", out, re.S)
+    if rc != 0 or not m:
+        return False, "coqchk failed: " + out[-600:], dt
+    parts = [" ".join(x.split()) for x in m.groups()]
+    ok = all(x == "<none>" for x in parts)
+    return ok, "axioms %s; type-in-type %s; unsafe fixpoints %s; assumed positivity %s" % tuple(parts), dt
+
+
 def coq_props(target, timeout=1200):
     """Re-run coqc on a Props file to capture Print Assumptions. Returns (ok, {thm: assumptions}, log)."""
     rc, out = run(["coqc", "-Q", ".", "LE", target], cwd=COQ, timeout=timeout)
